@@ -74,6 +74,8 @@ class Mini:
             return 0
         if e.cv is not None and k != 'DeclRefExpr':
             return e.cv
+        if e.cvu is not None and k != 'DeclRefExpr':
+            return int(e.cvu)          # an unsigned constant above INT64_MAX
         if e.fv is not None and k != 'DeclRefExpr':
             from fractions import Fraction
             return Fraction(e.fv)
@@ -154,7 +156,9 @@ class Mini:
                  '<': O.lt, '>': O.gt, '<=': O.le, '>=': O.ge, '==': O.eq, '!=': O.ne}.get(op)
             if f is None:
                 raise AnalysisBroken('mini-interpreter: operator %s' % op)
-            return int(f(a, b))
+            r_ = f(a, b)
+            from fractions import Fraction
+            return r_ if isinstance(r_, Fraction) and r_.denominator != 1 else int(r_)
         if is_assign(e) or k == 'CompoundAssignOperator':
             t = _strip_casts(e.child('lhs'))
             if t.k == 'MemberExpr' and self.member_store and e.op == '=':
@@ -313,6 +317,7 @@ def value_at(db, use, typed=None, members=None, hook=None):
         return out
     need = reads(use)
     picked = {}
+    order = {}
     changed = True
     while changed:
         changed = False
@@ -326,6 +331,7 @@ def value_at(db, use, typed=None, members=None, hook=None):
                     continue
                 if any(_writes(st, n) for n in need):
                     picked[st.id] = st
+                    order[st.id] = (-chain.index((comp, holder)), comp.c.index(st))      # execution order: outer blocks first
                     more = reads(st)
                     if not more <= need:
                         need |= more
@@ -333,7 +339,7 @@ def value_at(db, use, typed=None, members=None, hook=None):
     mi = Mini(db, hook=hook, typed=typed, members=dict(members or {}))
     env = {}
     try:
-        for sid in sorted(picked):
+        for sid in sorted(picked, key=lambda i_: order[i_]):
             mi.run(picked[sid], env)
     except (_Break, _Continue):
         raise AnalysisBroken('mini-interpreter: break/continue escapes the slice for `%s`' % use.text()[:40])
